@@ -160,6 +160,7 @@ func runXpathOnFile(path string) {
 		<-semaphore
 	}()
 
+	verifYield("start", path)
 	parseType := *fileType
 
 	if parseType == "" {
@@ -270,6 +271,7 @@ func executeXpath(cursor xsel.Cursor, path string) {
 		writeResult(&buffer, path, result)
 	}
 
+	verifYield("print", path)
 	fmt.Print(buffer.String())
 }
 
